@@ -372,3 +372,79 @@ func VerifCronAddWhileRunning() {
 	<-ctx.Done()
 	zzverif.Cover("cron_add_while_running_done")
 }
+
+// Stop while the scheduler is waking up: the clock reaches an activation of two entries and, without waiting for the
+// scheduler, a client calls Stop. A job may be started for that activation before Stop returns - but the scheduler
+// never decides a start after Stop has returned (start decisions are observed through the entries' Schedule.Next, which
+// the scheduler calls in its own goroutine right after each start), and the context Stop returns completes.
+//
+//verif:harness prop=C05 name=cron_stop_while_waking threads=7 sched=delay preempt=3 t_preempt=4 unwind=12 witness=lenient
+func VerifCronStopWhileWaking() {
+	start := zzverif.TimeFromNanos(1_000_000_000_000)
+	clk := zzverifstubs.NewClock(start)
+	c := New(WithClock(clk), WithLogger(vLogger{}), WithLocation(time.UTC))
+	p := time.Second
+	stopped := false
+	decidedAfterStop := 0
+	var calls [2]int
+	for i := 0; i < 2; i++ {
+		i := i
+		c.Schedule(vObsEvery{p, func() {
+			zzverif.Ghost(func() {
+				calls[i]++
+				if calls[i] > 1 && stopped {
+					decidedAfterStop++
+				}
+			})
+		}}, FuncJob(func() {}))
+	}
+	c.Start()
+	zzverif.WaitQuiescent()
+	clk.AdvanceTo(start.Add(p)) // both entries are due; the scheduler has been woken but may not have run yet
+	ctx := c.Stop()
+	zzverif.Ghost(func() { stopped = true })
+	<-ctx.Done()
+	zzverif.WaitQuiescent()
+	zzverif.Assert(decidedAfterStop == 0, "no_start_decided_after_stop_returned")
+	clk.AdvanceTo(start.Add(5 * p))
+	zzverif.WaitQuiescent()
+	zzverif.Assert(decidedAfterStop == 0, "no_start_decided_after_stop_returned")
+	zzverif.Assert(zzverif.ThreadsAliveIs(0), "scheduler_and_jobs_gone_after_stop")
+	zzverif.Cover("cron_stop_while_waking_done")
+}
+
+// The job wrappers of chain.go apply per entry: with DelayIfStillRunning (or SkipIfStillRunning) in the chain, a job
+// of one entry that is still running delays (or skips) later runs of THAT entry only - another entry's job starts at
+// its own activation instants regardless.
+//
+//verif:harness prop=C05 name=cron_chain_per_entry threads=8 sched=delay preempt=1 t_preempt=2 unwind=12 witness=lenient
+func VerifCronChainPerEntry() {
+	start := zzverif.TimeFromNanos(1_000_000_000_000)
+	clk := zzverifstubs.NewClock(start)
+	var wrapper JobWrapper
+	if zzverif.Bool("skip_instead_of_delay") {
+		wrapper = SkipIfStillRunning(vLogger{})
+	} else {
+		wrapper = DelayIfStillRunningWithClock(vLogger{}, clk)
+	}
+	c := New(WithClock(clk), WithLogger(vLogger{}), WithLocation(time.UTC), WithChain(wrapper))
+	block := make(chan struct{})
+	var blockedRuns, otherRuns int
+	c.Schedule(vEvery{time.Second}, FuncJob(func() {
+		zzverif.Ghost(func() { blockedRuns++ })
+		<-block
+	}))
+	c.Schedule(vEvery{time.Second}, FuncJob(func() { zzverif.Ghost(func() { otherRuns++ }) }))
+	c.Start()
+	zzverif.WaitQuiescent()
+	for s := 1; s <= 2; s++ {
+		clk.AdvanceTo(start.Add(time.Duration(s) * time.Second))
+		zzverif.WaitQuiescent()
+		zzverif.Assert(otherRuns == s, "other_entry_runs_at_each_of_its_activations")
+		zzverif.Assert(blockedRuns == 1, "still_running_job_is_not_run_concurrently_with_itself")
+	}
+	close(block)
+	ctx := c.Stop()
+	<-ctx.Done()
+	zzverif.Cover("cron_chain_per_entry_done")
+}
